@@ -240,7 +240,9 @@ def cases(draw, all_points=False):
         spec["crash_points"] = "all"
     else:
         m = sc.Model(spec)
-        menu = m.invocations + [m.last, m.last]
+        # the last period is offered twice when the scheduler is called there (with only a plain
+        # event in it, it is not)
+        menu = m.invocations + ([m.last, m.last] if m.last in m.invocations else [])
         pts = draw(st.lists(st.tuples(st.sampled_from(menu), st.sampled_from(["resume", "json", "json"])), min_size=1, max_size=3, unique=True))
         spec["crash_points"] = [list(p) for p in pts]
     spec["json_via"] = draw(st.sampled_from(["string", "path", "buffer"]))
